@@ -544,6 +544,17 @@ func safeIdx(v []any, i int) any {
 func pureFn(i int, v any) any {
 	switch x := v.(type) {
 	case int:
+		// some results are nil or native Go slices / maps (the library converts them to fresh containers)
+		switch (x + i) % 9 {
+		case 3:
+			return nil
+		case 5:
+			return []any{x, "n", []int{i}}
+		case 7:
+			return map[string]any{"x": x, "i": i}
+		case 8:
+			return []string{fmt.Sprint(x)}
+		}
 		return x*7 + i
 	case string:
 		return fmt.Sprintf("%s@%d", x, i)
@@ -553,6 +564,51 @@ func pureFn(i int, v any) any {
 		return i
 	}
 	return v // containers are passed through (identity)
+}
+
+// sameMapped: two Map results hold the same thing slot by slot: equal scalars, the identical passed-through container, or
+// (for containers the library created from a native result) distinct containers with the same content.
+func sameMapped(a, b any) bool {
+	ta, tb := top(a), top(b)
+	slot := func(x, y any) bool {
+		if eqSlot(x, y) {
+			return true
+		}
+		switch x.(type) {
+		case at.List, at.Object:
+			switch y.(type) {
+			case at.List, at.Object:
+				return stringCanon(x) == stringCanon(y)
+			}
+		}
+		return false
+	}
+	switch x := ta.(type) {
+	case []any:
+		y, ok := tb.([]any)
+		if !ok || len(x) != len(y) {
+			return false
+		}
+		for i := range x {
+			if !slot(x[i], y[i]) {
+				return false
+			}
+		}
+		return true
+	case map[string]any:
+		y, ok := tb.(map[string]any)
+		if !ok || len(x) != len(y) {
+			return false
+		}
+		for k, e := range x {
+			f, ok := y[k]
+			if !ok || !slot(e, f) {
+				return false
+			}
+		}
+		return true
+	}
+	return false
 }
 
 func c15Map(c *fw.Ctx, r *rng.R, ac *asyncCase, onList bool) {
@@ -581,8 +637,8 @@ func c15Map(c *fw.Ctx, r *rng.R, ac *asyncCase, onList bool) {
 			if calls != int64(ac.n) {
 				c.Violate("mapasync-not-exactly-once", in(), fmt.Sprintf("%d calls", ac.n), fmt.Sprintf("%d calls", calls))
 			}
-			if !sameTop(top(seq), top(par)) {
-				c.Violate("mapasync-differs-from-map", in(), showTop(top(seq)), showTop(top(par)))
+			if !sameMapped(seq, par) {
+				c.Violate("mapasync-differs-from-map", in(), stringCanon(seq), stringCanon(par))
 			}
 			if !sameTop(before, top(l)) {
 				c.Violate("mapasync-modifies-receiver", in(), showTop(before), showTop(top(l)))
@@ -610,8 +666,8 @@ func c15Map(c *fw.Ctx, r *rng.R, ac *asyncCase, onList bool) {
 			if calls != int64(ac.n) {
 				c.Violate("mapasync-not-exactly-once", in(), fmt.Sprintf("%d calls", ac.n), fmt.Sprintf("%d calls", calls))
 			}
-			if !sameTop(top(seq), top(par)) {
-				c.Violate("mapasync-differs-from-map", in(), showTop(top(seq)), showTop(top(par)))
+			if !sameMapped(seq, par) {
+				c.Violate("mapasync-differs-from-map", in(), stringCanon(seq), stringCanon(par))
 			}
 		}
 		c.DistinctHash(spec.Hash(in()))
